@@ -79,7 +79,7 @@ impl Iterator for TwoVals {
 
 // @harness c15_merge_many_windows
 // @props C15
-// @tier thorough
+// @tier off
 // @kind stretch
 // @timeout 5400
 // @mem 32
@@ -87,6 +87,7 @@ impl Iterator for TwoVals {
 // @functions utils::merge::merge_sections_many / ValueIter::next (window accumulation, run extraction, last_val hand-over between windows, insert_into_queue -> merge_into), with the work-window constant DATA_SIZE reduced from 50,000 to 4 bases by source substitution in the scratch copy (nothing else changed)
 // @bounds two input streams: A with two values, B with one value; coordinates <= 8 (two 4-base windows: values inside a window, crossing the boundary, ending on it); A's values 1.0 and 2.0, B's value -1.0 (cancels A's first) or 4.0; the merged stream is drained (<= 7 next() calls) and compared with the per-base sum at every base 0..8
 // @assumes each stream sorted, non-overlapping, non-empty values
+// @measured symbolic execution did not finish in 90 min (about 240 loop iterations reached: Vec::insert with a symbolic index, Box<dyn Iterator>, f64 accumulation under symbolic ranges); kept off, not part of any claim
 // @cut the real 50,000-base window (the per-base loops are linear in it); more than two streams; error items
 // @witness cover: a value crossing the window boundary; a cancelling base; the first window yields exactly one run and the second has data
 #[kani::proof]
